@@ -17,6 +17,8 @@ def gen_histories(ctx, shape, deep):
     ops, flts = pc.op_alphabet(shape.sec, shape.ptype, shape.rules, read_fed=True)
     if shape.level == "unit":
         ops = ops + [("removewitheffected", shape.sec, shape.ptype, [shape.rules[0], shape.rules[2], shape.rules[0]]), ("values", shape.sec, shape.ptype, 0), ("values", shape.sec, shape.ptype, len(shape.rules[0]))]
+    if shape.level == "enforcer" and shape.sec == "p":
+        ops = ops + pc.updatefiltered_alphabet(shape.sec, shape.ptype, shape.rules)
     reads = pc.reads_for(shape.sec, shape.ptype, shape.rules, flts)
     hists = []
     # exhaustive: every history of length <= 2 over the op alphabet, every read after every step
